@@ -68,7 +68,7 @@ and no request to that node is outstanding: exactly one presentation request add
 node is written; the write succeeded, so it is now outstanding, and the caller gets the missing error. -/
 theorem request_when_unmarked (inner : Msg → M Msg) (m : Msg) (e : Exn) (w w' : W)
     (h : inner m w = (.error e, w')) (he : missingCaught e = true) (hm : ¬ Marked w'.st m.node)
-    (hf : w'.faults = [] ∨ ∃ rest, w'.faults = false :: rest) :
+    (hf : w'.faults = [] ∨ ∃ rest, w'.faults = .pass :: rest) :
     (wrapMissingNC inner m w).1 = .error e ∧
     (wrapMissingNC inner m w).2.writes = w'.writes ++ [⟨encode (presentationRequest m.node), true⟩] ∧
     Marked (wrapMissingNC inner m w).2.st m.node := by
@@ -78,17 +78,35 @@ theorem request_when_unmarked (inner : Msg → M Msg) (m : Msg) (e : Exn) (w w' 
   · rw [transportWrite_ok _ _ hf]; simp [Marked, PDict.has_set_self]
   · rw [transportWrite_pass _ _ rest hf]; simp [Marked, PDict.has_set_self]
 
-/-- **A request whose write failed does not count as sent**: the transport error is reported and
+/-- **A request whose write did not complete does not count as sent** — whether the transport
+failed (the transport error is reported) or the listening task was cancelled while the request was
+being written (`asyncio.wait_for`, a timeout, `task.cancel()`: the `CancelledError` propagates):
 nothing is recorded, so the next such message tries again. -/
-theorem failed_request_not_recorded (inner : Msg → M Msg) (m : Msg) (e : Exn) (w w' : W) (rest : List Bool)
-    (h : inner m w = (.error e, w')) (he : missingCaught e = true) (hm : ¬ Marked w'.st m.node)
-    (hf : w'.faults = true :: rest) :
-    (wrapMissingNC inner m w).1 = .error (.lib .transportFailed) ∧
+theorem aborted_request_not_recorded (inner : Msg → M Msg) (m : Msg) (e : Exn) (w w' : W) (f : Fault) (x : Exn)
+    (rest : List Fault) (h : inner m w = (.error e, w')) (he : missingCaught e = true) (hm : ¬ Marked w'.st m.node)
+    (hf : w'.faults = f :: rest) (hx : f.exn = some x) :
+    (wrapMissingNC inner m w).1 = .error x ∧
     (wrapMissingNC inner m w).2.writes = w'.writes ++ [⟨encode (presentationRequest m.node), false⟩] ∧
     (wrapMissingNC inner m w).2.st = w'.st := by
   have hm' : w'.st.ibuf.has (presentationRequest m.node).key = false := by simpa [Marked] using hm
-  rw [wrapMissingNC_unmarked inner m e w w' h he hm', transportWrite_fail _ _ rest hf]
+  rw [wrapMissingNC_unmarked inner m e w w' h he hm', transportWrite_abort _ _ f x rest hf hx]
   simp
+
+theorem failed_request_not_recorded (inner : Msg → M Msg) (m : Msg) (e : Exn) (w w' : W) (rest : List Fault)
+    (h : inner m w = (.error e, w')) (he : missingCaught e = true) (hm : ¬ Marked w'.st m.node)
+    (hf : w'.faults = .fail :: rest) :
+    (wrapMissingNC inner m w).1 = .error (.lib .transportFailed) ∧
+    (wrapMissingNC inner m w).2.writes = w'.writes ++ [⟨encode (presentationRequest m.node), false⟩] ∧
+    (wrapMissingNC inner m w).2.st = w'.st :=
+  aborted_request_not_recorded inner m e w w' .fail _ rest h he hm hf rfl
+
+theorem cancelled_request_not_recorded (inner : Msg → M Msg) (m : Msg) (e : Exn) (w w' : W) (rest : List Fault)
+    (h : inner m w = (.error e, w')) (he : missingCaught e = true) (hm : ¬ Marked w'.st m.node)
+    (hf : w'.faults = .cancel :: rest) :
+    (wrapMissingNC inner m w).1 = .error (.foreign .CancelledError) ∧
+    (wrapMissingNC inner m w).2.writes = w'.writes ++ [⟨encode (presentationRequest m.node), false⟩] ∧
+    (wrapMissingNC inner m w).2.st = w'.st :=
+  aborted_request_not_recorded inner m e w w' .cancel _ rest h he hm hf rfl
 
 /-- **Silence while a request is outstanding.** -/
 theorem silent_when_marked (inner : Msg → M Msg) (m : Msg) (e : Exn) (w w' : W)
@@ -206,15 +224,15 @@ def Inv (st : St) : Prop := C07.SbufInv st ∧ IbufWF st
 
 theorem inv_init : Inv {} := ⟨C07.sbufInv_init, ibufWF_init⟩
 
-theorem stepOp_recv_st (st : St) (env : Env) (line : Str) (f : List Bool) :
+theorem stepOp_recv_st (st : St) (env : Env) (line : Str) (f : List Fault) :
     (stepOp st (.recv env line f)).1 = (recv env line { st := st, faults := f }).2.st := by
   simp only [stepOp]; split <;> simp_all
 
-theorem stepOp_recv_writes (st : St) (env : Env) (line : Str) (f : List Bool) :
+theorem stepOp_recv_writes (st : St) (env : Env) (line : Str) (f : List Fault) :
     (stepOp st (.recv env line f)).2.writes = (recv env line { st := st, faults := f }).2.writes := by
   simp only [stepOp]; split <;> simp_all
 
-theorem stepOp_send_st (st : St) (obj : Option Msg) (b : Bool) (f : List Bool) :
+theorem stepOp_send_st (st : St) (obj : Option Msg) (b : Bool) (f : List Fault) :
     (stepOp st (.send obj b f)).1 = (apiSend obj b { st := st, faults := f }).2.st := by
   simp only [stepOp]; split <;> simp_all
 
@@ -452,7 +470,7 @@ theorem reqLine_eq (n : Int) : reqLine n = dec n ++ ";255;3;0;19;\n".toList := r
 example : Inv {} := inv_init
 
 /-- a battery report from node 7, then a user `send`: nothing here re-arms node 7 -/
-example : NoRearm 7 {} [.recv {} "7;255;3;0;0;55\n".toList [true], .send none false []] :=
+example : NoRearm 7 {} [.recv {} "7;255;3;0;0;55\n".toList [.fail], .send none false [.cancel]] :=
   ⟨by decide, rfl, trivial⟩
 
 /-- a node presentation of 7 under protocol 2.2 re-arms 7 -/
